@@ -2,7 +2,7 @@
    Models: AtomicFile.v; proofs: Proofs_Atomic.v. *)
 From Coq Require Import ZArith List Bool.
 From Common Require Import Str Res.
-From Files Require Import AtomicFile Proofs_Atomic.
+From Files Require Import AtomicFile Proofs_Atomic Proofs_Durable.
 Import ListNotations.
 Open Scope Z_scope.
 
@@ -124,6 +124,49 @@ Theorem C11_core_load_clean : forall (A : Type) (k : fkind) (unlink_ok : bool) (
     (forall a, v = Some a -> o = DOk a).
 Proof. exact core_load_clean_lemma. Qed.
 Print Assumptions C11_core_load_clean.
+
+(* T5: the stronger crash model -- power loss.  File content is durable only after a
+   successful fsync of that file; renames are durable at once.  The boolean evaluated on
+   real traces (monitor trace_powerloss_atomic, also on the traces of runs in which a call
+   was made to fail) is exactly "after a power loss at any point the target shows the
+   complete old or the complete new content". *)
+Theorem C11_powerloss_atomic_exact : forall ops target old new,
+  powerloss_atomic_b ops target old new = true <->
+  powerloss_atomic (dinit target old) ops target old new.
+Proof. exact powerloss_atomic_exact_lemma. Qed.
+Print Assumptions C11_powerloss_atomic_exact.
+
+(* The protocol WITH a successful fsync of the temporary file between the last write and
+   the rename is atomic under power loss, for every durable start state, every list of
+   write chunks and every further fsync/close before or after the rename. *)
+Theorem C11_powerloss_protocol_atomic : forall s0 f tmp target chunks mid tail,
+  wf (ks s0) -> names (ks s0) tmp = None -> tmp <> target ->
+  (forall i, i < next (ks s0) -> durable s0 i = data (ks s0) i) ->
+  forallb quiet_b mid = true -> forallb quiet_b tail = true ->
+  powerloss_atomic s0 (kprotocol f tmp target chunks (KFsync f :: mid) tail) target
+                   (read (ks s0) target) (concat chunks).
+Proof. exact durable_protocol_lemma. Qed.
+Print Assumptions C11_powerloss_protocol_atomic.
+
+Theorem C11_dump_powerloss_atomic : forall s0 f tmp target data_ cuts,
+  wf (ks s0) -> names (ks s0) tmp = None -> tmp <> target ->
+  (forall i, i < next (ks s0) -> durable s0 i = data (ks s0) i) ->
+  powerloss_atomic s0 (compile no_bufs (dump_uops f tmp target [(data_, None)] cuts)) target
+                   (read (ks s0) target) data_.
+Proof. exact dump_powerloss_lemma. Qed.
+Print Assumptions C11_dump_powerloss_atomic.
+
+(* Without the fsync -- or with its failure ignored, so that the rename still happens --
+   the protocol is atomic for process death but NOT under power loss (computed witness:
+   the target ends up empty); with the fsync the same run is fine. *)
+Theorem C11_no_fsync_powerloss_refuted :
+  let ops := kprotocol 3 w_tmp w_target [[4; 5; 6]] [KClose 3] [] in
+  crash_atomic_b ops w_target (Some [1; 2]) [4; 5; 6] = true /\
+  powerloss_atomic_b ops w_target (Some [1; 2]) [4; 5; 6] = false /\
+  pl_read (drun ops (dinit w_target (Some [1; 2]))) w_target = Some [] /\
+  powerloss_atomic_b (kprotocol 3 w_tmp w_target [[4; 5; 6]] [KFsync 3; KClose 3] []) w_target (Some [1; 2]) [4; 5; 6] = true.
+Proof. exact no_fsync_powerloss_refuted_lemma. Qed.
+Print Assumptions C11_no_fsync_powerloss_refuted.
 
 (* The code before the fix commits (kept machine-checked): *)
 Theorem C11_dump_old_refuted :
